@@ -96,7 +96,9 @@ func runRefDiff(c *Ctx, refs map[string]refFn, cap int) {
 				}
 			})
 		}
-		fn.baseLists(c.Thorough, cap, func(args []cty.Value) {
+		// the reference checks are cheap per case: both tiers use the larger
+		// alphabets, the thorough tier additionally the generated (deep) ones
+		fn.baseLists(true, cap, func(args []cty.Value) {
 			buf = append(buf, args)
 			if len(buf) >= 50 {
 				flush()
